@@ -86,6 +86,25 @@ class _DetNames(object):
 def _seed_tempfile_names(streams):
     import tempfile
     tempfile._name_sequence = _DetNames(streams.stream("tempfile_names"))
+    # other entropy a library might reach for without going through the seams: the `random` module's hidden
+    # global instance and numpy's generators are seeded from the run's own stream, so runs stay replayable
+    import random as _random
+    _random.seed(streams.stream("global_random").getrandbits(64))
+    try:
+        import numpy as np
+        np.random.seed(streams.stream("numpy_global").getrandbits(32))
+        if not getattr(np.random.default_rng, "_dst_wrapped", False):
+            _orig = np.random.default_rng
+            _seedsrc = streams.stream("numpy_default_rng")
+
+            def default_rng(seed=None, *a, **k):
+                if seed is None:
+                    seed = _seedsrc.getrandbits(64)
+                return _orig(seed, *a, **k)
+            default_rng._dst_wrapped = True
+            np.random.default_rng = default_rng
+    except Exception:
+        pass
 
 
 def run_one(prop, tier, verif_seed, job):
@@ -116,11 +135,19 @@ def run_one(prop, tier, verif_seed, job):
             # an exception the harness did not expect: if it was raised inside the code under
             # test (innermost frame in localcider/) the call the property needs has failed
             tb = traceback.extract_tb(e.__traceback__)
-            inner = tb[-1] if tb else None
-            in_lib = bool(inner) and (os.sep + "localcider" + os.sep) in inner.filename and (os.sep + "dst" + os.sep) not in inner.filename
-            lib_frames = [f for f in tb if (os.sep + "localcider" + os.sep) in f.filename]
-            if in_lib or (lib_frames and not isinstance(e, (AssertionError,)) and (os.sep + "dst" + os.sep) not in inner.filename):
-                fr = lib_frames[-1]
+            lib = os.sep + "localcider" + os.sep
+            mine = os.sep + "dst" + os.sep
+            owner = None
+            for fr_ in tb:                       # the deepest frame that belongs to the library or to the harness decides
+                if lib in fr_.filename and mine not in fr_.filename:
+                    owner = ("lib", fr_)
+                elif mine in fr_.filename:
+                    owner = ("harness", fr_)
+            if isinstance(e, Warning):
+                # a warning turned into an error by the process configuration: not a statement about the library
+                res.update(outcome="DISCARD", msg="a %s was raised as an error" % type(e).__name__)
+            elif owner and owner[0] == "lib":
+                fr = owner[1]
                 res.update(outcome="VIOLATION", kind="unexpected_exception", key="unexpected_exception:%s:%s" % (type(e).__name__, fr.name),
                            msg="%s: %s raised in %s (%s:%d) where the harness expected the call to succeed" % (
                                type(e).__name__, e, fr.name, os.path.basename(fr.filename), fr.lineno), event=ctx.log.n)
